@@ -16,6 +16,7 @@
     construct — the literal object is `WF`
 -/
 import MofunModel.Proofs.HistLemmas
+import MofunModel.Proofs.HistMeaning
 
 namespace Mofun.Hist
 
@@ -136,6 +137,238 @@ theorem extendTypes_atoms_resolve (a b : Atoms) (t : Nat) :
     exact ⟨fun h => List.getElem?_append_left h, fun h => List.getElem?_append_left h,
       fun h => List.getElem?_append_left h, fun h => List.getElem?_append_left h⟩
 
+/-! ### STRETCH — meaning: every surviving atom / term resolves to the texts it was defined with
+
+  Identity of an atom = its charge, group (and position, except under replication), which no operation touches;
+  identity of a term = its extra row.  `atomText a ty` = (element, label, mass) of type `ty` in `a`'s tables;
+  `PairKept` / `CoeffKept` = "the pair / term coefficient is the same text, unless the result has no such table". -/
+
+/-- **meaning_delete.** Deletion leaves every type table alone; each remaining atom is an atom of the input (same
+    row, hence same type id and same texts), each remaining term has the type id and extra row of an input term. -/
+theorem meaning_delete (a r : Atoms) (idx : List Nat) (h : a.delete idx = .ok r) :
+    SameTables r a ∧ (∀ row ∈ r.atoms, row ∈ a.atoms)
+    ∧ (∀ tm ∈ r.bonds.terms, ∃ t0 ∈ a.bonds.terms, tm.ty = t0.ty ∧ tm.extra = t0.extra)
+    ∧ (∀ tm ∈ r.angles.terms, ∃ t0 ∈ a.angles.terms, tm.ty = t0.ty ∧ tm.extra = t0.extra)
+    ∧ (∀ tm ∈ r.dihedrals.terms, ∃ t0 ∈ a.dihedrals.terms, tm.ty = t0.ty ∧ tm.extra = t0.extra)
+    ∧ (∀ tm ∈ r.impropers.terms, ∃ t0 ∈ a.impropers.terms, tm.ty = t0.ty ∧ tm.extra = t0.extra) := by
+  have kind : ∀ (t : TermTable), ∀ tm ∈ (t.delete idx).terms, ∃ t0 ∈ t.terms, tm.ty = t0.ty ∧ tm.extra = t0.extra := by
+    intro t tm hm
+    simp only [TermTable.delete, deleteTerms, List.mem_map, List.mem_filter] at hm
+    obtain ⟨t0, ⟨hmem, _⟩, rfl⟩ := hm
+    exact ⟨t0, hmem, rfl, rfl⟩
+  unfold Atoms.delete at h
+  split at h
+  · cases h
+  · cases h
+    exact ⟨⟨rfl, rfl, rfl, rfl, rfl, rfl, rfl, rfl⟩, fun row hr => hist_mem_deleteIdx idx a.atoms row hr,
+      kind _, kind _, kind _, kind _⟩
+
+/-- **meaning_pop.** -/
+theorem meaning_pop (a r : Atoms) (i : Int) (h : a.pop i = .ok r) :
+    SameTables r a ∧ (∀ row ∈ r.atoms, row ∈ a.atoms)
+    ∧ (∀ tm ∈ r.bonds.terms, ∃ t0 ∈ a.bonds.terms, tm.ty = t0.ty ∧ tm.extra = t0.extra)
+    ∧ (∀ tm ∈ r.angles.terms, ∃ t0 ∈ a.angles.terms, tm.ty = t0.ty ∧ tm.extra = t0.extra)
+    ∧ (∀ tm ∈ r.dihedrals.terms, ∃ t0 ∈ a.dihedrals.terms, tm.ty = t0.ty ∧ tm.extra = t0.extra)
+    ∧ (∀ tm ∈ r.impropers.terms, ∃ t0 ∈ a.impropers.terms, tm.ty = t0.ty ∧ tm.extra = t0.extra) := by
+  unfold Atoms.pop at h
+  split at h
+  · cases h
+  · exact meaning_delete a r _ h
+
+/-- **meaning_getitem.** A subset keeps element, label and mass tables; each of its atoms is an atom of the input
+    with the same type id, charge, group and position; it has no pair table and no terms (by design). -/
+theorem meaning_getitem (a r : Atoms) (idx : List Nat) (h : a.getitem idx = .ok r) :
+    (∀ ty, atomText r ty = atomText a ty) ∧ r.pairCoeffs = []
+    ∧ (∀ row ∈ r.atoms, ∃ row0 ∈ a.atoms, row.ty = row0.ty ∧ row.charge = row0.charge ∧ row.group = row0.group
+        ∧ row.pos = row0.pos)
+    ∧ r.bonds.terms = [] ∧ r.angles.terms = [] ∧ r.dihedrals.terms = [] ∧ r.impropers.terms = [] := by
+  unfold Atoms.getitem at h
+  split at h
+  · cases h
+  · split at h
+    · cases h
+    · cases h
+      refine ⟨fun ty => rfl, rfl, ?_, rfl, rfl, rfl, rfl⟩
+      intro row hr
+      simp only [List.mem_filterMap] at hr
+      obtain ⟨i, _, hi⟩ := hr
+      cases hq : a.atoms[i]? with
+      | none => simp [hq] at hi
+      | some row0 =>
+        simp [hq] at hi
+        subst hi
+        exact ⟨row0, List.mem_of_getElem? hq, rfl, rfl, rfl, rfl⟩
+
+/-- **meaning_extend.** `a.extend(b)` with default offsets under `Compat` (and one table entry per atom type in
+    `a`, `Aligned a`):
+    every atom of the result is an atom of `a` (same charge, group, position) that still resolves to its texts or —
+    when it is the image of an identity-map entry — to the texts of that atom of `b`; or it is an atom of `b`
+    (same charge, group, position) resolving to `b`'s texts.  Every term of the result is a term of `a` (same
+    atoms, widened extra row) with the coefficient it had, or a term of `b` (extra row re-laid out) with the
+    coefficient it had in `b` — also when the kind had been emptied in `a`, or `a` had no atoms left. -/
+theorem meaning_extend (a b r : Atoms) (map : List (Nat × Nat)) (hwa : WF a) (hal : Aligned a)
+    (hc : Compat a b) (h : a.extend b none map = .ok r) :
+    (∀ row ∈ r.atoms,
+      (∃ row0 ∈ a.atoms, row.charge = row0.charge ∧ row.group = row0.group ∧ row.pos = row0.pos
+        ∧ ((atomText r row.ty = atomText a row0.ty ∧ PairKept r a row.ty row0.ty)
+           ∨ ∃ kv ∈ map, ∃ br, b.atoms[kv.1]? = some br
+               ∧ atomText r row.ty = atomText b br.ty ∧ PairKept r b row.ty br.ty))
+      ∨ (∃ br ∈ b.atoms, row.charge = br.charge ∧ row.group = br.group ∧ row.pos = br.pos
+          ∧ atomText r row.ty = atomText b br.ty ∧ PairKept r b row.ty br.ty))
+    ∧ (∀ tm ∈ r.bonds.terms, TermMeaningKept r.bonds a.bonds b.bonds tm)
+    ∧ (∀ tm ∈ r.angles.terms, TermMeaningKept r.angles a.angles b.angles tm)
+    ∧ (∀ tm ∈ r.dihedrals.terms, TermMeaningKept r.dihedrals a.dihedrals b.dihedrals tm)
+    ∧ (∀ tm ∈ r.impropers.terms, TermMeaningKept r.impropers a.impropers b.impropers tm) := by
+  rw [extend_none_eq_core] at h
+  obtain ⟨ha, _, _, _, hbo, han, hdi, him⟩ := hwa
+  obtain ⟨cp, cb, ca, cd, ci⟩ := hc
+  obtain ⟨hrows, _, _, _, _, hst⟩ := extendCore_from _ b r _ map h
+  obtain ⟨s1, s2, s3, s4, _⟩ := hst
+  obtain ⟨ta, tb⟩ := extendTypes_atomText a b hal cp
+  -- texts in `r` = texts in the merged tables
+  have htext : ∀ ty, atomText r ty = atomText (a.extendTypes b).1 ty := by
+    intro ty; simp only [atomText, s1, s2, s3]
+  have hpair : ∀ (src : Atoms) ty ty0, PairKept (a.extendTypes b).1 src ty ty0 → PairKept r src ty ty0 := by
+    intro src ty ty0 hk; unfold PairKept at hk ⊢; rw [s4]; exact hk
+  refine ⟨?_, ?_, ?_, ?_, ?_⟩
+  · intro row hrow
+    rcases hrows row hrow with ⟨row0, h0, hch, hg, hp, hty⟩ | ⟨br, hbr, hch, hg, hp, hty⟩
+    · refine Or.inl ⟨row0, h0, hch, hg, hp, ?_⟩
+      rcases hty with hty | ⟨kv, hkv, br, hbr, hty⟩
+      · left
+        have hlt : row0.ty < a.typeElems.length := (ha row0 h0).1
+        rw [hty, htext]
+        exact ⟨(ta row0.ty hlt).1, hpair a _ _ (ta row0.ty hlt).2⟩
+      · right
+        refine ⟨kv, hkv, br, hbr, ?_⟩
+        rw [hty, htext]
+        exact ⟨(tb br.ty).1, hpair b _ _ (tb br.ty).2⟩
+    · refine Or.inr ⟨br, hbr, hch, hg, hp, ?_⟩
+      rw [hty, htext]
+      exact ⟨(tb br.ty).1, hpair b _ _ (tb br.ty).2⟩
+  all_goals
+    unfold extendCore at h
+    split at h
+    · cases h
+    · split at h
+      · cases h
+      · cases hB : ((a.extendTypes b).1).bonds.extendWith b.bonds (a.extendTypes b).2.bond
+            (extConv (a.extendTypes b).1.atoms.length b map) with
+        | error e => simp [hB, bind, Except.bind] at h
+        | ok bonds =>
+          cases hA : ((a.extendTypes b).1).angles.extendWith b.angles (a.extendTypes b).2.angle
+              (extConv (a.extendTypes b).1.atoms.length b map) with
+          | error e => simp [hB, hA, bind, Except.bind] at h
+          | ok angles =>
+            cases hD : ((a.extendTypes b).1).dihedrals.extendWith b.dihedrals (a.extendTypes b).2.dihedral
+                (extConv (a.extendTypes b).1.atoms.length b map) with
+            | error e => simp [hB, hA, hD, bind, Except.bind] at h
+            | ok dihedrals =>
+              cases hI : ((a.extendTypes b).1).impropers.extendWith b.impropers (a.extendTypes b).2.improper
+                  (extConv (a.extendTypes b).1.atoms.length b map) with
+              | error e => simp [hB, hA, hD, hI, bind, Except.bind] at h
+              | ok impropers =>
+                simp [hB, hA, hD, hI, bind, Except.bind, pure, Except.pure] at h
+                subst h
+                first
+                  | exact meaning_kind a.bonds b.bonds _ _ _ hbo cb hB
+                  | exact meaning_kind a.angles b.angles _ _ _ han ca hA
+                  | exact meaning_kind a.dihedrals b.dihedrals _ _ _ hdi cd hD
+                  | exact meaning_kind a.impropers b.impropers _ _ _ him ci hI
+
+/-- **meaning_extend_offsets.** With explicit offsets no table changes; every atom of `a` keeps its charge, group,
+    position and — unless it is the image of an identity-map entry — its type id; appended atoms and terms carry
+    `b`'s type ids shifted by the given offsets (which the caller promises to denote the same entries). -/
+theorem meaning_extend_offsets (a b r : Atoms) (o : Offsets) (map : List (Nat × Nat))
+    (h : a.extend b (some o) map = .ok r) :
+    SameTables r a ∧ (∀ row ∈ r.atoms, RowFrom a b o.atom map row)
+    ∧ (∀ tm ∈ r.bonds.terms, TermFrom a.bonds b.bonds o.bond (extConv a.atoms.length b map) tm)
+    ∧ (∀ tm ∈ r.angles.terms, TermFrom a.angles b.angles o.angle (extConv a.atoms.length b map) tm)
+    ∧ (∀ tm ∈ r.dihedrals.terms, TermFrom a.dihedrals b.dihedrals o.dihedral (extConv a.atoms.length b map) tm)
+    ∧ (∀ tm ∈ r.impropers.terms, TermFrom a.impropers b.impropers o.improper (extConv a.atoms.length b map) tm) := by
+  rw [extend_some_eq_core] at h
+  obtain ⟨h1, h2, h3, h4, h5, h6⟩ := extendCore_from a b r o map h
+  exact ⟨h6, h1, h2, h3, h4, h5⟩
+
+/-- **meaning_replicate.** Replication leaves every type table alone; every atom of the result has the type id,
+    charge and group of an atom of the input, every term the type id of an input term of its kind. -/
+theorem meaning_replicate (a r : Atoms) (da db dc : Nat) (h : a.replicate da db dc = .ok r) : FromTypes r a := by
+  unfold Atoms.replicate at h
+  split at h
+  · cases h
+  · rename_i cell _
+    simp only at h
+    have inv : ∀ ms : List (Nat × Nat × Nat), ∀ r0,
+        ms.foldl (fun (acc : Except Err Atoms) (m : Nat × Nat × Nat) =>
+          match acc with
+          | .error e => .error e
+          | .ok r => r.extend (a.translate (cell.lattice m.1 m.2.1 m.2.2)) (some Offsets.zero) []) (.ok a) = .ok r0
+        → FromTypes r0 a := by
+      intro ms
+      apply hist_foldl_inv (fun acc : Except Err Atoms => ∀ r0, acc = .ok r0 → FromTypes r0 a)
+      · intro r0 h0; cases h0
+        exact ⟨⟨rfl, rfl, rfl, rfl, rfl, rfl, rfl, rfl⟩, fun row hr => ⟨row, hr, rfl, rfl, rfl⟩,
+          fun tm ht => ⟨tm, ht, rfl⟩, fun tm ht => ⟨tm, ht, rfl⟩, fun tm ht => ⟨tm, ht, rfl⟩,
+          fun tm ht => ⟨tm, ht, rfl⟩⟩
+      · intro acc m hacc r1 h1
+        cases acc with
+        | error e => simp at h1
+        | ok r0 =>
+          obtain ⟨hs0, hr0, hb0, ha0, hd0, hi0⟩ := hacc r0 rfl
+          simp only at h1
+          obtain ⟨hs1, hr1, hb1, ha1, hd1, hi1⟩ := meaning_extend_offsets r0 _ r1 _ [] h1
+          have kind : ∀ (rk r0k ak : TermTable) (conv : Nat → Option Nat),
+              (∀ tm ∈ r0k.terms, ∃ t0 ∈ ak.terms, tm.ty = t0.ty) →
+              (∀ tm ∈ rk.terms, TermFrom r0k ak 0 conv tm) → ∀ tm ∈ rk.terms, ∃ t0 ∈ ak.terms, tm.ty = t0.ty := by
+            intro rk r0k ak conv h0 hf tm htm
+            rcases hf tm htm with ⟨t0, ht0, hty, _, _⟩ | ⟨t0, ht0, hty, _, _⟩
+            · obtain ⟨t1, ht1, e⟩ := h0 t0 ht0
+              exact ⟨t1, ht1, hty.trans e⟩
+            · exact ⟨t0, ht0, by simpa using hty⟩
+          obtain ⟨s1, s2, s3, s4, s5, s6, s7, s8⟩ := hs0
+          obtain ⟨e1, e2, e3, e4, e5, e6, e7, e8⟩ := hs1
+          refine ⟨⟨e1.trans s1, e2.trans s2, e3.trans s3, e4.trans s4, e5.trans s5, e6.trans s6, e7.trans s7,
+            e8.trans s8⟩, ?_, kind _ _ _ _ hb0 hb1, kind _ _ _ _ ha0 ha1, kind _ _ _ _ hd0 hd1,
+            kind _ _ _ _ hi0 hi1⟩
+          intro row hrow
+          rcases hr1 row hrow with ⟨row0, h0, hch, hg, _, hty⟩ | ⟨br, hbr, hch, hg, _, hty⟩
+          · rcases hty with hty | ⟨kv, hkv, _⟩
+            · obtain ⟨row1, h1', e1', e2', e3'⟩ := hr0 row0 h0
+              exact ⟨row1, h1', hty.trans e1', hch.trans e2', hg.trans e3'⟩
+            · cases hkv
+          · simp only [Atoms.translate, List.mem_map] at hbr
+            obtain ⟨x, hx, rfl⟩ := hbr
+            exact ⟨x, hx, by simpa [Offsets.zero] using hty, hch, hg⟩
+    split at h
+    · cases h
+    · rename_i r0 hr0
+      cases h
+      exact inv _ r0 hr0
+
+/-- `Aligned` (one entry per atom type in every atom-type table) is kept by every operation, so `meaning_extend`
+    applies at every extend of a history that started from aligned objects -/
+theorem aligned_ops (a : Atoms) (hal : Aligned a) :
+    (∀ r idx, a.delete idx = .ok r → Aligned r) ∧ (∀ r i, a.pop i = .ok r → Aligned r)
+    ∧ (∀ r idx, a.getitem idx = .ok r → Aligned r)
+    ∧ (∀ r da db dc, a.replicate da db dc = .ok r → Aligned r)
+    ∧ (∀ b r o map, a.extend b (some o) map = .ok r → Aligned r)
+    ∧ (∀ b r map, Aligned b → PairCompat a b → a.extend b none map = .ok r → Aligned r) := by
+  refine ⟨?_, ?_, ?_, ?_, ?_, ?_⟩
+  · intro r idx h; exact aligned_of_sameTables r a (meaning_delete a r idx h).1 hal
+  · intro r i h; exact aligned_of_sameTables r a (meaning_pop a r i h).1 hal
+  · intro r idx h
+    unfold Atoms.getitem at h
+    split at h
+    · cases h
+    · split at h
+      · cases h
+      · cases h; exact ⟨hal.1, hal.2.1, Or.inl rfl⟩
+  · intro r da db dc h; exact aligned_of_sameTables r a (meaning_replicate a r da db dc h).1 hal
+  · intro b r o map h; exact aligned_of_sameTables r a (meaning_extend_offsets a b r o map h).1 hal
+  · intro b r map hb hp h
+    rw [extend_none_eq_core] at h
+    exact aligned_of_sameTables r _ (extendCore_from _ b r _ map h).2.2.2.2.2 (aligned_extendTypes a b hal hb hp)
+
 /-! ### histories -/
 
 /-- **wf_step.** One guarded op takes a state of consistent objects to a state of consistent objects. -/
@@ -234,23 +467,6 @@ theorem wf_run (ops : List Op) : ∀ (s s' : State), WFState s → GuardedRun s 
       simp only [hstep] at h hg2
       exact ih s1 s' (wf_step s s1 op hs hg1 hstep) hg2 h
 
-theorem guardedRun_take (ops : List Op) : ∀ (s : State) (k : Nat), GuardedRun s ops → GuardedRun s (ops.take k) := by
-  induction ops with
-  | nil => intro s k h; simpa using h
-  | cons op rest ih =>
-    intro s k h
-    cases k with
-    | zero => simp [GuardedRun]
-    | succ k =>
-      obtain ⟨h1, h2⟩ := h
-      simp only [List.take_succ_cons, GuardedRun]
-      refine ⟨h1, ?_⟩
-      cases hstep : step s op with
-      | error e => trivial
-      | ok s1 =>
-        simp only [hstep] at h2 ⊢
-        exact ih s1 k h2
-
 /-- **wf_run_prefix.** …and so is every intermediate state: the invariant holds after every step of the history. -/
 theorem wf_run_prefix (ops : List Op) (s s' : State) (k : Nat) (hs : WFState s) (hg : GuardedRun s ops)
     (h : run s (ops.take k) = .ok s') : WFState s' :=
@@ -282,6 +498,112 @@ theorem wf_trace (ops : List Op) : ∀ (s : State), WFState s → GuardedRun s o
       rcases List.mem_cons.mp h with h | h
       · cases h; exact hw1
       · exact ih s1 hw1 hg2 s' h
+
+/-! ### STRETCH — the hypotheses of `meaning_extend` hold at every extend of a guarded history -/
+
+/-- **aligned_step.** -/
+theorem aligned_step (s s' : State) (op : Op) (_hw : WFState s) (hs : AlignedState s) (hg : GuardedOp s op)
+    (hao : AlignedOp op) (h : step s op = .ok s') : AlignedState s' := by
+  cases op with
+  | construct dst a => exact alignedState_put s s' dst a hs hao h
+  | copy src dst =>
+    simp only [step, bind, Except.bind] at h
+    cases ha : getSlot s src with
+    | error e => simp [ha] at h
+    | ok a =>
+      simp only [ha] at h
+      exact alignedState_put s s' dst a hs (hs src a (getSlot_ok s src a ha)) h
+  | delete slot idx =>
+    simp only [step, bind, Except.bind] at h
+    cases ha : getSlot s slot with
+    | error e => simp [ha] at h
+    | ok a =>
+      simp only [ha] at h
+      cases hr : a.delete idx with
+      | error e => simp [hr] at h
+      | ok r =>
+        simp only [hr] at h
+        exact alignedState_put s s' slot r hs ((aligned_ops a (hs slot a (getSlot_ok s slot a ha))).1 r idx hr) h
+  | pop slot i =>
+    simp only [step, bind, Except.bind] at h
+    cases ha : getSlot s slot with
+    | error e => simp [ha] at h
+    | ok a =>
+      simp only [ha] at h
+      cases hr : a.pop i with
+      | error e => simp [hr] at h
+      | ok r =>
+        simp only [hr] at h
+        exact alignedState_put s s' slot r hs ((aligned_ops a (hs slot a (getSlot_ok s slot a ha))).2.1 r i hr) h
+  | extend dst src off map =>
+    simp only [step, bind, Except.bind] at h
+    cases ha : getSlot s dst with
+    | error e => simp [ha] at h
+    | ok a =>
+      simp only [ha] at h
+      cases hb : getSlot s src with
+      | error e => simp [hb] at h
+      | ok b =>
+        simp only [hb] at h
+        cases hr : a.extend b off map with
+        | error e => simp [hr] at h
+        | ok r =>
+          simp only [hr] at h
+          have ea := getSlot_ok s dst a ha
+          have eb := getSlot_ok s src b hb
+          have hg' : ExtendGuard a b off := by
+            simp only [GuardedOp, slotGuard, ea, eb] at hg; exact hg
+          have hops := aligned_ops a (hs dst a ea)
+          cases off with
+          | none =>
+            exact alignedState_put s s' dst r hs (hops.2.2.2.2.2 b r map (hs src b eb) hg'.1 hr) h
+          | some o =>
+            exact alignedState_put s s' dst r hs (hops.2.2.2.2.1 b r o map hr) h
+  | replicate src dst da db dc =>
+    simp only [step, bind, Except.bind] at h
+    cases ha : getSlot s src with
+    | error e => simp [ha] at h
+    | ok a =>
+      simp only [ha] at h
+      cases hr : a.replicate da db dc with
+      | error e => simp [hr] at h
+      | ok r =>
+        simp only [hr] at h
+        exact alignedState_put s s' dst r hs
+          ((aligned_ops a (hs src a (getSlot_ok s src a ha))).2.2.2.1 r da db dc hr) h
+  | getitem src dst idx =>
+    simp only [step, bind, Except.bind] at h
+    cases ha : getSlot s src with
+    | error e => simp [ha] at h
+    | ok a =>
+      simp only [ha] at h
+      cases hr : a.getitem idx with
+      | error e => simp [hr] at h
+      | ok r =>
+        simp only [hr] at h
+        exact alignedState_put s s' dst r hs ((aligned_ops a (hs src a (getSlot_ok s src a ha))).2.2.1 r idx hr) h
+
+/-- **meaning_run.** Along every guarded history whose literals are aligned, both invariants hold in every
+    reachable state; hence at every `extend` with default offsets the hypotheses of `meaning_extend`
+    (`WF`, `Aligned`, `Compat`) are met, and at every other op the unconditional `meaning_*` theorem applies. -/
+theorem meaning_run (ops : List Op) : ∀ (s s' : State), WFState s → AlignedState s → GuardedRun s ops →
+    (∀ op ∈ ops, AlignedOp op) → run s ops = .ok s' → WFState s' ∧ AlignedState s' := by
+  induction ops with
+  | nil =>
+    intro s s' hw hs _ _ h
+    simp only [run] at h
+    cases h; exact ⟨hw, hs⟩
+  | cons op rest ih =>
+    intro s s' hw hs hg hao h
+    obtain ⟨hg1, hg2⟩ := hg
+    simp only [run] at h
+    cases hstep : step s op with
+    | error e => simp [hstep] at h
+    | ok s1 =>
+      simp only [hstep] at h hg2
+      exact ih s1 s' (wf_step s s1 op hw hg1 hstep)
+        (aligned_step s s1 op hw hs hg1 (hao op List.mem_cons_self) hstep) hg2
+        (fun o ho => hao o (List.mem_cons_of_mem _ ho)) h
 
 /-! ### non-vacuity: concrete histories that satisfy every guard, run to the end, and hit the special cases -/
 
@@ -324,6 +646,12 @@ example : ∃ s a, run State.init (exHistory.take 4) = .ok s ∧ s[0]? = some (s
     ∧ a.bonds.terms.map (·.ty) = [2] ∧ a.bonds.coeffs[2]? = some "kB0"
     ∧ a.atoms.map (·.ty) = [0, 2, 2] ∧ a.typeLabels[2]? = some "O_1" := by
   refine ⟨_, _, rfl, rfl, ?_, ?_, ?_, ?_⟩ <;> decide
+
+example : Aligned exA ∧ Aligned exB ∧ ∀ op ∈ exHistory, AlignedOp op := by decide
+
+/-- explicit offsets: appending a copy of an object to itself with offsets `(0,0,0,0,0)` is inside the guard -/
+example : OffsetsOk exA exA Offsets.zero ∧ ∃ r, exA.extend exA (some Offsets.zero) [] = .ok r ∧ r.atoms.length = 6 := by
+  refine ⟨by decide, _, rfl, by decide⟩
 
 /-- an incompatible extend (self has bonds without a table, the other has a table) is outside the guard -/
 example : ¬ Compat { exA with bonds := { exA.bonds with coeffs := [] } } exB := by decide
